@@ -40,6 +40,9 @@ class IntArr:
     def __len__(self):
         return len(self.v)
 
+    def __iter__(self):
+        return iter(list(self.v))
+
     def __getitem__(self, k):
         if isinstance(k, (list, tuple)):
             return IntArr([self.v[int(i.__index__())] for i in k])
@@ -252,6 +255,8 @@ def ev(e, env):
         return list(itertools.product(*args))
     if isinstance(e, ast.Call) and isinstance(e.func, ast.Name) and e.func.id == 'dict' and not e.args and not e.keywords:
         return {}
+    if isinstance(e, ast.Call) and isinstance(e.func, ast.Name) and e.func.id == 'dict' and len(e.args) == 1 and not e.keywords and 'dict' not in env:
+        return dict(ev(e.args[0], env))
     if isinstance(e, ast.Call) and isinstance(e.func, ast.Attribute) and e.func.attr in ('append', 'extend') and not e.keywords:
         recv = ev(e.func.value, env)
         if isinstance(recv, list) or type(recv).__name__ == 'deque':        # comprehension evaluated for its effect on a list the code itself created
@@ -261,7 +266,7 @@ def ev(e, env):
         import collections
         return collections.deque(*[ev(a, env) for a in e.args])
     if isinstance(e, ast.Call) and isinstance(e.func, ast.Attribute) and isinstance(e.func.value, ast.Name) and e.func.value.id == 'np' \
-            and e.func.attr == 'zeros' and len(e.args) == 1 and all(k.arg == 'dtype' for k in e.keywords):
+            and e.func.attr == 'zeros' and len(e.args) == 1 and all(k.arg == 'dtype' for k in e.keywords) and not isinstance(env.get('np'), NS):
         n = ev(e.args[0], env)
         if not isinstance(n, int):
             raise ModelError('minieval: np.zeros with a non-integer shape')
@@ -296,11 +301,13 @@ def ev(e, env):
     if isinstance(e, ast.Call) and isinstance(e.func, ast.Name) and isinstance(env.get(e.func.id), LocalFn) and not e.keywords:
         lf = env[e.func.id]
         return call_function(lf.fdef, [ev(a, env) for a in e.args], lf.env)
-    if isinstance(e, ast.Call) and isinstance(e.func, ast.Attribute) and not e.keywords:
+    if isinstance(e, ast.Call) and isinstance(e.func, ast.Attribute) and all(k.arg for k in e.keywords):
         # a method of one of the rule's stand-in objects: the rule supplies a recording stub (marked _kv_stub)
         b = ev(e.func.value, env)
         if isinstance(b, NS) and callable(getattr(b, e.func.attr, None)) and getattr(getattr(b, e.func.attr), '_kv_stub', False):
-            return getattr(b, e.func.attr)(*[ev(a, env) for a in e.args])
+            return getattr(b, e.func.attr)(*[ev(a, env) for a in e.args], **{k.arg: ev(k.value, env) for k in e.keywords})
+    if isinstance(e, ast.Call) and isinstance(e.func, ast.Name) and getattr(env.get(e.func.id), '_kv_stub', False) and all(k.arg for k in e.keywords):
+        return env[e.func.id](*[ev(a, env) for a in e.args], **{k.arg: ev(k.value, env) for k in e.keywords})     # a stand-in constructor / function of the rule
     raise ModelError(f'minieval: expression outside the subset: {ast.unparse(e)[:80]}')
 
 
@@ -325,6 +332,19 @@ def bind(target, value, env):
             raise ValueError('unpacking arity')       # what the code itself would raise
         for t, v in zip(target.elts, vals):
             bind(t, v, env)
+    elif isinstance(target, ast.Subscript):
+        base = ev(target.value, env)
+        if isinstance(base, Rec):
+            base.put(ev(target.slice, env), value)
+        elif isinstance(base, (list, dict, IntArr)):
+            base[ev(target.slice, env)] = value
+        else:
+            raise ModelError(f'minieval: item store into {type(base).__name__}')
+    elif isinstance(target, ast.Attribute):
+        base = ev(target.value, env)
+        if not isinstance(base, NS):
+            raise ModelError('minieval: attribute store')
+        setattr(base, target.attr, value)
     else:
         raise ModelError(f'minieval: binding target {ast.unparse(target)}')
 
@@ -490,3 +510,28 @@ def run(stmts, env):
         else:
             raise ModelError(f'minieval: statement outside the subset: {ast.unparse(st)[:80]}')
     return None
+
+
+def bind_class(ns, classdef, genv, skip=('__init__',)):
+    """Give the stand-in object `ns` the methods its class defines (other than `skip` and those the rule already set): each is evaluated in
+    Engine M when called, with `genv` as the module-level environment. Static methods get no receiver."""
+    for st in classdef.body:
+        if isinstance(st, ast.FunctionDef) and st.name not in skip and not hasattr(ns, st.name):
+            decos = {d.id if isinstance(d, ast.Name) else getattr(d, 'attr', None) for d in st.decorator_list}
+            if decos - {'staticmethod'}:
+                continue        # properties, classmethods, jit wrappers: not modelled (use raises ModelError through the attribute lookup)
+
+            def mk(fdef, static):
+                def call(*args):
+                    return call_function(fdef, list(args) if static else [ns] + list(args), genv)
+                return stub(call)
+            setattr(ns, st.name, mk(st, 'staticmethod' in decos))
+    return ns
+
+
+def module_functions(tree, genv):
+    """Module-level functions as callables of Engine M (closures over genv, which they are added to)."""
+    for st in tree.body:
+        if isinstance(st, ast.FunctionDef) and st.name not in genv:
+            genv[st.name] = LocalFn(st, genv)
+    return genv
